@@ -274,6 +274,12 @@ def build(case):
             B.model = wb.ByteMem(nbytes, [b if (i % bm) < case["mem_w"] // 8 else 0 for i, b in enumerate(init)])
         else:
             top.submodules.dut = wishbone.SRAM(W * bm, read_only=case["read_only"], init=iw, bus=m)
+            # a second SRAM on the same bus wires as a decoder leaves an unselected slave: stb / we / adr / dat_w / sel follow the
+            # master, cyc stays low - it must not answer and its content must not change
+            m2 = wishbone.Interface(data_width=dw_m, adr_width=12, addressing="word")
+            top.comb += [m2.stb.eq(m.stb), m2.we.eq(m.we), m2.adr.eq(m.adr), m2.dat_w.eq(m.dat_w), m2.sel.eq(m.sel)]
+            top.submodules.bystander = wishbone.SRAM(W * bm, init=iw, bus=m2)
+            B.bystander = (top.bystander, m2, iw)
         B.read_only = case["read_only"]
     elif k == "sram_burst":
         m = wishbone.Interface(data_width=dw_m, adr_width=12, addressing="word", bursting=True)
@@ -414,6 +420,10 @@ def run_case(case):
              "hold": o.get("hold", False), "cti": o.get("cti", 0), "bte": o.get("bte", 0)} for o in all_ops]
     master = wb.WBMaster(B.m, mops)
     agents = [master] + B.monitors
+    byst = getattr(B, "bystander", None)
+    if byst:
+        bprobe = bench.Probe([byst[1].ack] + [byst[0].mem[i] for i in range(len(byst[2]))])
+        agents.append(bprobe)
     go = bench.Schedule(case["go"] if bench.sched_has_one(case["go"]) else ["const", 1])
     csr_agent = None
     if B.slave is not None:
@@ -432,6 +442,15 @@ def run_case(case):
         i = master.i
         return bad("termination", "%s: operation %d (%r) never acknowledged within %d cycles" % (k, i, mops[i] if i < len(mops) else None, limit),
                    key="wb-hang:" + k, cls=cls, cycles=cyc)
+    if byst:
+        for c_, row in enumerate(bprobe.trace):
+            if row[0]:
+                return bad("unselected-ack", "sram: a second SRAM whose cyc is low (stb/we/adr/dat_w follow the bus) acknowledges in cycle %d" % c_,
+                           key="wb-unselected:sram", cls=cls, cycles=cyc)
+            if list(row[1:]) != list(byst[2]):
+                i_ = next(i for i in range(len(byst[2])) if row[1 + i] != byst[2][i])
+                return bad("unselected-write", "sram: a second SRAM whose cyc is low (stb/we/adr/dat_w follow the bus) changed word %d from %#x to %#x "
+                           "in cycle %d" % (i_, byst[2][i_], row[1 + i_], c_), key="wb-unselected:sram", cls=cls, cycles=cyc)
     if master.acks_outside and k != "sram_burst":
         # (a burst-capable slave pre-asserts ack for the next beat; an ack during a master wait state is
         #  not a termination and is ignored, as Wishbone B4 registered-feedback cycles prescribe)
